@@ -22,36 +22,74 @@ Definition sensors_groups (c : caps) : list group :=
   [GRunning; GMeter (meter_level c)] ++ (if has_battery c then [GBattery] else []) ++ (if has_battery2 c then [GBattery2] else [])
   ++ (if has_mppt c then [GMppt] else []).
 
-(* -> requests made, result (None = the call raised RequestRejectedException), capabilities afterwards *)
-Definition read_runtime_data (c : caps) (e : env) : list block * option (list group) * caps :=
-  let reqs := [BRunning] in
-  let keys := [GRunning] in
-  (* battery *)
+(* One call.  [lose]: the ordinal (0-based, within this call) of a request that gets no answer (RequestFailedException
+   propagates out of read_runtime_data with the capability flags as they are at that moment); None: every request is answered.
+   -> requests made, result (None = the call raised), capabilities afterwards *)
+Definition cres := (list block * option (list group) * caps)%type.
+Record pst := mkP { p_reqs : list block; p_keys : list group; p_caps : caps }.
+Definition lost (lose : option nat) (reqs : list block) : bool :=
+  match lose with Some n => Nat.eqb n (length reqs) | None => false end.
+Definition abort (p : pst) (b : block) : cres := (p_reqs p ++ [b], None, p_caps p).
+
+Definition set_battery (c : caps) (v : bool) := mkCaps v (has_battery2 c) (has_ext c) (has_ext2 c) (has_mppt c) (meter_level c).
+Definition set_battery2 (c : caps) (v : bool) := mkCaps (has_battery c) v (has_ext c) (has_ext2 c) (has_mppt c) (meter_level c).
+Definition set_mppt (c : caps) (v : bool) := mkCaps (has_battery c) (has_battery2 c) (has_ext c) (has_ext2 c) v (meter_level c).
+Definition set_ext2_off (c : caps) := mkCaps (has_battery c) (has_battery2 c) (has_ext c) false (has_mppt c) (Nat.max (meter_level c) 1).
+Definition set_ext_off (c : caps) := mkCaps (has_battery c) (has_battery2 c) false (has_ext2 c) (has_mppt c) 2.
+
+(* an optional block guarded by a capability flag that is switched off on ILLEGAL DATA ADDRESS *)
+Definition opt_block (lose : option nat) (p : pst) (enabled refused : bool) (b : block) (g : group) (off : caps -> caps) : cres + pst :=
+  if enabled then
+    if lost lose (p_reqs p) then inl (abort p b)
+    else if refused then inr (mkP (p_reqs p ++ [b]) (p_keys p) (off (p_caps p)))
+    else inr (mkP (p_reqs p ++ [b]) (p_keys p ++ [g]) (p_caps p))
+  else inr p.
+
+(* the meter block with its two fallbacks; a refused fallback read re-raises *)
+Definition meter_block (lose : option nat) (e : env) (p : pst) : cres + pst :=
+  let c := p_caps p in
+  let ok (p' : pst) (b : block) := inr (mkP (p_reqs p' ++ [b]) (p_keys p' ++ [GMeter (meter_level (p_caps p'))]) (p_caps p')) in
+  if has_ext2 c then
+    if lost lose (p_reqs p) then inl (abort p BMeterExt2)
+    else if r_ext2 e then
+      let p1 := mkP (p_reqs p ++ [BMeterExt2]) (p_keys p) (set_ext2_off c) in
+      if lost lose (p_reqs p1) then inl (abort p1 BMeterExt)
+      else if r_ext e then inl (abort p1 BMeterExt)
+      else ok p1 BMeterExt
+    else ok p BMeterExt2
+  else if has_ext c then
+    if lost lose (p_reqs p) then inl (abort p BMeterExt)
+    else if r_ext e then
+      let p1 := mkP (p_reqs p ++ [BMeterExt]) (p_keys p) (set_ext_off c) in
+      if lost lose (p_reqs p1) then inl (abort p1 BMeterBasic)
+      else ok p1 BMeterBasic
+    else ok p BMeterExt
+  else
+    if lost lose (p_reqs p) then inl (abort p BMeterBasic) else ok p BMeterBasic.
+
+Definition read_runtime_data (c : caps) (e : env) (lose : option nat) : cres :=
+  if lost lose [] then ([BRunning], None, c) else
   let hb := negb (bm_zero e) in
-  let '(reqs, keys, hb) :=
-    if hb then (if r_battery e then (reqs ++ [BBattery], keys, false) else (reqs ++ [BBattery], keys ++ [GBattery], true)) else (reqs, keys, false) in
-  let '(reqs, keys, hb2) :=
-    if has_battery2 c then (if r_battery2 e then (reqs ++ [BBattery2], keys, false) else (reqs ++ [BBattery2], keys ++ [GBattery2], true)) else (reqs, keys, false) in
-  (* meter *)
-  let '(reqs, meter, ext2, ext, lvl) :=
-    if has_ext2 c then
-      if r_ext2 e then
-        let lvl := Nat.max (meter_level c) 1 in
-        if r_ext e then (reqs ++ [BMeterExt2; BMeterExt], None, false, has_ext c, lvl)
-        else (reqs ++ [BMeterExt2; BMeterExt], Some lvl, false, has_ext c, lvl)
-      else (reqs ++ [BMeterExt2], Some (meter_level c), true, has_ext c, meter_level c)
-    else if has_ext c then
-      if r_ext e then (reqs ++ [BMeterExt; BMeterBasic], Some 2, false, false, 2)
-      else (reqs ++ [BMeterExt], Some (meter_level c), false, true, meter_level c)
-    else (reqs ++ [BMeterBasic], Some (meter_level c), false, false, meter_level c) in
-  match meter with
-  | None => (reqs, None, mkCaps hb hb2 ext ext2 (has_mppt c) lvl)
-  | Some l =>
-      let keys := keys ++ [GMeter l] in
-      let '(reqs, keys, mp) :=
-        if has_mppt c then (if r_mppt e then (reqs ++ [BMppt], keys, false) else (reqs ++ [BMppt], keys ++ [GMppt], true)) else (reqs, keys, false) in
-      (reqs, Some keys, mkCaps hb hb2 ext ext2 mp lvl)
-  end.
+  let p := mkP [BRunning] [GRunning] (set_battery c hb) in
+  match opt_block lose p hb (r_battery e) BBattery GBattery (fun c => set_battery c false) with
+  | inl r => r
+  | inr p =>
+  match opt_block lose p (has_battery2 (p_caps p)) (r_battery2 e) BBattery2 GBattery2 (fun c => set_battery2 c false) with
+  | inl r => r
+  | inr p =>
+  match meter_block lose e p with
+  | inl r => r
+  | inr p =>
+  match opt_block lose p (has_mppt (p_caps p)) (r_mppt e) BMppt GMppt (fun c => set_mppt c false) with
+  | inl r => r
+  | inr p => (p_reqs p, Some (p_keys p), p_caps p)
+  end end end end.
+
+(* the window fetched for the meter block (125 / 58 / 45 registers by the flags) covers the meter sensors listed at the filter level *)
+Definition caps_consistent (c : caps) : bool :=
+  if has_ext2 c then has_ext c else if has_ext c then Nat.leb 1 (meter_level c) else Nat.eqb (meter_level c) 2.
+
+Definition all_loss : list (option nat) := None :: map Some [0; 1; 2; 3; 4; 5; 6; 7].
 
 (* same groups, as sets (the result dictionary is keyed by sensor id) *)
 Definition group_eqb (a b : group) : bool :=
@@ -69,17 +107,17 @@ Definition all_caps : list caps :=
 Definition all_envs : list env :=
   flat_map (fun a => flat_map (fun b => flat_map (fun c => flat_map (fun d => flat_map (fun e => map (fun f => mkEnv a b c d e f) bools) bools) bools) bools) bools) bools.
 
-Definition keys_ok (c : caps) (e : env) : bool :=
-  match read_runtime_data c e with
+Definition keys_ok (c : caps) (e : env) (lose : option nat) : bool :=
+  match read_runtime_data c e lose with
   | (_, Some keys, c') => same_groups keys (sensors_groups c')
   | (_, None, _) => true end.
 
 (* reachable capability sets keep the invariant "extended-2 implies filter level 0 ... " implicitly: the statement below
    is over ALL capability sets, reachable or not *)
 Definition second_call_ok (c : caps) (e1 e2 : env) : bool :=
-  match read_runtime_data c e1 with
+  match read_runtime_data c e1 None with
   | (_, Some _, _) => true
-  | (_, None, c') => match read_runtime_data c' e2 with (_, Some _, _) => true | _ => false end
+  | (_, None, c') => match read_runtime_data c' e2 None with (_, Some _, _) => true | _ => false end
   end.
 
 (* the refusal set of an inverter does not change between two calls; battery_mode may *)
@@ -91,5 +129,5 @@ Definition enc_block (b : block) : nat := match b with BRunning => 0 | BBattery 
 Definition enc_caps (c : caps) : list nat :=
   map (fun b : bool => if b then 1 else 0) [has_battery c; has_battery2 c; has_ext c; has_ext2 c; has_mppt c] ++ [meter_level c].
 Definition enc_call (r : list block * option (list group) * caps) : list nat :=
-  let '(reqs, res, c) := r in
-  [length reqs] ++ map enc_block reqs ++ [match res with Some _ => 1 | None => 0 end] ++ enc_caps c.
+  let '(reqs, cres, c) := r in
+  [length reqs] ++ map enc_block reqs ++ [match cres with Some _ => 1 | None => 0 end] ++ enc_caps c.
